@@ -435,3 +435,51 @@ Proof.
   destruct (history_invariant_gen sym_kern fl_pinned svalid scompat _ _ _ _ _ sym_kern_ok hist_good (st_default, heap1) heap1_inv hist_good_ok)
     as (I & _ & A). split; assumption.
 Qed.
+
+(* ------------------------------------------------------------------ a Kronecker product in the heap
+   objects 0, 1: the dense 2 x 2 factors; object 2: KroneckerProductLinearOperator(0, 1), 4 x 4.  The hypotheses of the
+   history theorem are satisfiable on it too: queries under the default settings (the overridden cached methods
+   delegate to the base class: nested cache entries), then with max_cholesky_size(0) (they delegate to the factors:
+   the factors' caches are written), a derived operator, an add_low_rank whose roots are compatible factor by factor *)
+Definition pf_kron (l : list nat) : profile :=
+  {| pf_td_name := Some "LinearOperator.to_dense"; pf_td_kids := []; pf_chol_ignore := false; pf_eig := EigKron l;
+     pf_cm_root := None; pf_precond := false; pf_sum := false; pf_iqld_to := false |}.
+Definition heap_kron : heap sym_kern :=
+  Build_heap sym_kern [dense_obj 2 10; dense_obj 2 11; Build_obj sym_kern (pf_kron [0; 1]) 4 true (SBase 12) None None] 0.
+Definition hist_kron : list (event sym_kern) :=
+  [EQuery 2 (QRootDecomp [] []); EQuery 2 (QRootInv [] [("method", PStr "symeig")]);
+   EQuery 2 (QCholesky [] [("upper", PBool true)]); EQuery 2 (QIqld 0 true); EQuery 2 QLogdet;
+   ESet st_lanczos;
+   EQuery 2 (QRootInv [] []); EQuery 2 (QRootDecomp [] [("method", PStr "symeig")]); EQuery 2 QSvd; EQuery 2 QEigh;
+   EQuery 2 (QSample 0); EQuery 0 (QCholesky [] []);
+   ESet st_default;
+   EDerive 2 (DAddLowRank 0 (PStr "cholesky") (PStr "cholesky") true) [] (dense_new 4); EQuery 3 QLogdet].
+
+Lemma heap_kron_inv : sInv heap_kron.
+Proof.
+  apply Inv_fresh. intros i o G.
+  destruct i as [|[|[|i]]]; simpl in G; try (destruct i; discriminate); inversion G; subst;
+    (split; [reflexivity | split; [reflexivity | apply obj_wfb_ok; vm_compute; reflexivity]]).
+Qed.
+
+Example hist_kron_ok : sgood (st_default, heap_kron) hist_kron.
+Proof. apply good_runb_ok. vm_compute. reflexivity. Qed.
+
+(* the nested cache entries of the override: root_decomposition() on the product under the default settings leaves
+   the Cholesky factor, the entry of the BASE method (keyed by method=None) and the entry of the override (no
+   arguments) on the product, and the Cholesky factor on each factor; with max_cholesky_size(0) the factors' own
+   root_decomposition caches are written instead *)
+Example kron_nested_cache_entries :
+  map (fun o => d_keys (dict_of (o_memo sym_kern o)))
+      (h_objs sym_kern (snd (snd (run sym_kern fl_pinned (st_default, heap_kron) [EQuery 2 (QRootDecomp [] [])]))))
+  = [[KFull (NStr "cholesky") [] [("upper", PBool false)]];
+     [KFull (NStr "cholesky") [] [("upper", PBool false)]];
+     [KFull (NStr "cholesky") [] [("upper", PBool false)];
+      KFull (NStr "root_decomposition") [] [("method", PNone)];
+      KFull (NStr "root_decomposition") [] []]]
+  /\ map (fun o => d_keys (dict_of (o_memo sym_kern o)))
+      (h_objs sym_kern (snd (snd (run sym_kern fl_pinned (st_lanczos, heap_kron) [EQuery 2 (QRootDecomp [] [])]))))
+  = [[KFull (NStr "root_decomposition") [] [("method", PNone)]];
+     [KFull (NStr "root_decomposition") [] [("method", PNone)]];
+     [KFull (NStr "root_decomposition") [] []]].
+Proof. split; vm_compute; reflexivity. Qed.
